@@ -15,7 +15,7 @@ import random
 import subprocess
 import sys
 
-WT = "/tmp/wt/mut"
+WT = os.environ.get("MUT_WT", "/tmp/wt/mut")
 
 
 def mutants(tree, funcs):
@@ -128,6 +128,10 @@ def main():
     random.Random(seed).shuffle(ms)
     ms = ms[:n]
     env = dict(os.environ, PYTHONPATH=f"{WT}/src")
+    # tests that already fail on the unmutated tree (environment-dependent) are not evidence against a mutant
+    rc, out = sh(f"cd {WT} && /venv/bin/python -m pytest -q -p no:cacheprovider --timeout=300 -rf {' '.join(tests)} 2>&1 | grep '^FAILED' | cut -d' ' -f2", 1800, env)
+    desel = " ".join(f"--deselect '{t}'" for t in out.split())
+    print("baseline failures deselected:", out.split(), flush=True)
     outdir = os.path.join("/tmp/mutants", rel.replace("/", "_"))
     os.makedirs(outdir, exist_ok=True)
     stats = {"tests-killed": 0, "caught": 0, "survived": 0, "harness": 0}
@@ -136,7 +140,7 @@ def main():
         if new == base:
             continue
         open(path, "w").write(new + "\n")
-        rc, out = sh(f"cd {WT} && /venv/bin/python -m pytest -x -q -p no:cacheprovider --timeout=300 {' '.join(tests)} 2>&1 | tail -3", 900, env)
+        rc, out = sh(f"cd {WT} && /venv/bin/python -m pytest -x -q -p no:cacheprovider --timeout=300 {desel} {' '.join(tests)} 2>&1 | tail -3", 900, env)
         if "passed" not in out or "failed" in out or "error" in out.lower():
             stats["tests-killed"] += 1
             print(f"[{k}] {desc}: killed by the tests", flush=True)
